@@ -81,7 +81,8 @@ def finish(ctx, level="other"):
     """Filter known findings, print verdict lines, write evidence. Returns exit code."""
     known = load_known()
     open_keys = {(k["property"], k["key"]): k for k in known.get("open", [])}
-    viol_dir = os.path.join(VERIF, "evidence", "violations")
+    evdir = os.environ.get("GREX_EVIDENCE_DIR") or os.path.join(VERIF, "evidence")
+    viol_dir = os.path.join(evdir, "violations")
     os.makedirs(viol_dir, exist_ok=True)
     unlisted = []
     listed = []
@@ -136,8 +137,8 @@ def finish(ctx, level="other"):
         "wall_s": round(wall, 2),
         "violations": len(unlisted),
     }
-    os.makedirs(os.path.join(VERIF, "evidence"), exist_ok=True)
-    with open(os.path.join(VERIF, "evidence", "%s.json" % ctx.prop), "w") as f:
+    os.makedirs(evdir, exist_ok=True)
+    with open(os.path.join(evdir, "%s.json" % ctx.prop), "w") as f:
         json.dump(ev, f, indent=1, default=str)
     print("%s: %d rule instances over %d sites, %d hold, %d known finding(s), %d violation(s) [%.1fs]" % (
         ctx.prop, len(ctx.instances), len(sites), len(held), len(listed), len(unlisted), wall))
